@@ -80,6 +80,10 @@ Effect(idx, ty, st, e) ==
   CASE e.op = "new" -> [InitAbs(idx, ty) EXCEPT !.val = ApplyKw(idx, ty, NormMsg(idx[ty].fresh), e.kw)]
     [] e.op = "set" -> [st EXCEPT !.val = SetVal(idx, ty, st.val, e.f, Assigned(idx[ty].byname[e.f], e.v))]
     [] e.op = "setin" -> SetIn(idx, ty, st, e.f, e.x, e.v)
+    \* m.<f>.<x> = m.<f>.<x>: an assignment like any other (the sub-message becomes present), whatever object is assigned
+    [] e.op = "selfin" -> LET cur == st.val[e.f]
+                              inner == IF cur.k = "msg" THEN cur.m ELSE NormMsg(idx[idx[ty].byname[e.f].msg].fresh) IN
+                          IF cur.k = "any" THEN st ELSE SetIn(idx, ty, st, e.f, e.x, inner[e.x])
     [] e.op = "parse" -> MergeParse(idx, ty, st, e.b)
     [] e.op = "fromdict_cls" -> [InitAbs(idx, ty) EXCEPT !.val = ApplyKw(idx, ty, NormMsg(idx[ty].fresh), e.kw)]
     [] e.op = "fromdict_inst" -> [st EXCEPT !.val = ApplyKw(idx, ty, st.val, e.kw)]
@@ -98,7 +102,7 @@ DiffVal(obs, exp) == { n \in DOMAIN exp : ~(IF exp[n] = Any THEN obs[n].k = "msg
 \* reading an unselected oneof member raises AttributeError; so does reaching into an optional sub-message that is None
 ExpectedRes(idx, ty, st, e) ==
   IF e.op = "get" /\ IsMember(idx, ty, e.f) /\ ~Readable(st, e.f) THEN "AttributeError"
-  ELSE IF e.op \in {"getin", "setin"} /\ idx[ty].byname[e.f].card \in {"oneof", "optional"} /\ ~Readable(st, e.f) THEN "AttributeError"
+  ELSE IF e.op \in {"getin", "setin", "selfin"} /\ idx[ty].byname[e.f].card \in {"oneof", "optional"} /\ ~Readable(st, e.f) THEN "AttributeError"
   ELSE "ok"
 
 \* the observation vector e.obs = [val, wire, raises, dictkeys] judged against the state after the operation
